@@ -17,6 +17,13 @@ def is_neg_test(c):
         if len(comp[3]) == 1 and fmt(comp[3][0][1]) == 'weights.values()' and not comp[3][0][2]:
             bv = comp[3][0][0][0]
             return comp[2] in (('not', ('cmp', '<=', num(0), bv)), ('cmp', '<', bv, num(0)))
+    # the list of the negative weights taken as a truth value (non-empty): the same test
+    inner = c[2][0] if (call_is(c, 'BOOL') or call_is(c, 'LEN')) and len(c[2]) == 1 else c
+    if inner[0] == 'cmp' and inner[1] == '<' and inner[2] == num(0) and call_is(inner[3], 'LEN') and len(inner[3][2]) == 1:
+        inner = inner[3][2][0]          # 0 < len([...])
+    if inner[0] == 'comp' and inner[1] in ('list', 'gen') and len(inner[3]) == 1 and fmt(inner[3][0][1]) == 'weights.values()' and len(inner[3][0][2]) == 1:
+        bv = inner[3][0][0][0]
+        return inner[2] == bv and inner[3][0][2][0] in (('not', ('cmp', '<=', num(0), bv)), ('cmp', '<', bv, num(0)))
     return False
 
 
@@ -122,6 +129,9 @@ def s1_formula(ctx):
     for s in sp:
         asset, w, wsrc = loop_asset_weight(s['loop'])
         # the container iterated is what _normalise_weights returned on this path: the raw weights (~0 sum) or the normalised comprehension
+        if wsrc is None or fmt(wsrc) == 'None':
+            ctx.undecided('C10.S1', 'the sizing loop runs over the normalised weights', s['loop'].site, 'what the loop iterates was not traced back to the weights')
+            continue
         ok = wsrc == V('weights') or (wsrc[0] == 'comp' and wsrc[1] == 'dict') or \
             (wsrc[0] == 'attr' and wsrc[1] == V('self') and any(sm['result'] == wsrc[2] for sm in slots))       # the remembered normalisation, judged above
         ctx.require(ok, 'C10.S1', 'the sizing loop runs over the normalised weights', s['loop'].site, fmt(wsrc)[:100], key='C10.S1|loop-source')
